@@ -4,6 +4,8 @@ package main
 import (
 	"flag"
 	"fmt"
+	"io"
+	"log"
 	"os"
 	"strconv"
 
@@ -50,6 +52,14 @@ func main() {
 		fs.Uint64Var(&a.Seed, "seed", seed, "")
 		fs.Parse(os.Args[2:])
 		os.Exit(runner.Run(a))
+	case "shrink":
+		fs := flag.NewFlagSet("shrink", flag.ExitOnError)
+		prop := fs.String("prop", "", "")
+		tier := fs.String("tier", "quick", "")
+		dir := fs.String("replay", "", "")
+		fs.Parse(os.Args[2:])
+		log.SetOutput(io.Discard)
+		os.Exit(runner.ShrinkReplay(*prop, *tier, *dir))
 	case "props":
 		for _, p := range runner.Props() {
 			fmt.Println(p)
